@@ -233,8 +233,10 @@ class PopenExecutor(concurrent.futures.Executor):
 
         # submitting new futures after join() would be bad,
         # so we make this internal and only call it from shutdown()
-        with contextlib.suppress(concurrent.futures.CancelledError):
-            for future in list(self._futures):
+        for future in list(self._futures):
+            # result() re-raises the exception of a job that timed out or failed:
+            # such a job is finished, keep waiting for the remaining ones
+            with contextlib.suppress(Exception):
                 future.result()
 
 
